@@ -8,6 +8,8 @@ import (
 	"runtime"
 	"sort"
 	"sync"
+	"sync/atomic"
+	"time"
 
 	"verifharness/common"
 )
@@ -38,9 +40,17 @@ func RunHistCheck(run *common.Run, hc HistCheck, n int) {
 	stats := map[string]int{}
 	completed, truncated := 0, 0
 	crash := CrashStats{ByKind: map[string]int{}}
+	var found int64
 	common.ParallelFor(n, runtime.NumCPU(), func(i int) {
+		if atomic.LoadInt64(&found) >= 400 {
+			return // enough witnesses; the tree is broken, no need to exhaust the budget
+		}
 		rng := common.Rng(run.Seed, int64(i))
+		t0 := time.Now()
 		res := RunHistory(ctx, rng, hc.Gen, hc.Opt)
+		if d := time.Since(t0); d > 5*time.Second && os.Getenv("VERIF_SLOW") != "" {
+			fmt.Fprintf(os.Stderr, "SLOW history %d: %v ops=%d shape=%.80s stats=%v\n", i, d, len(res.E.Trace.Ops), res.Shape, res.E.Stats)
+		}
 		if hc.Post != nil && !res.E.Failed() {
 			hc.Post(ctx, run, res, i)
 		}
@@ -72,6 +82,7 @@ func RunHistCheck(run *common.Run, hc HistCheck, n int) {
 			if f.Prop != hc.Prop {
 				continue
 			}
+			atomic.AddInt64(&found, 1)
 			h, ok := hits[f.Sig]
 			if !ok {
 				hits[f.Sig] = &sigHit{f: f, trace: res.E.Trace, count: 1}
